@@ -248,10 +248,9 @@ struct bitset {
         -> basic_inplace_string<CharT, Capacity, Traits>
     {
         auto str = basic_inplace_string<CharT, Capacity, Traits>{};
-        for (auto i{size() - 1U}; i != 0; --i) {
-            str.push_back(test(i) ? one : zero);
+        for (auto i{size()}; i != 0; --i) {
+            str.push_back(test(i - 1U) ? one : zero);
         }
-        str.push_back(test(0) ? one : zero);
         return str;
     }
 
